@@ -77,6 +77,18 @@ CHECKS = {
         technique="property-based testing: robustness oracle (completes without internal error) over generated programs x CLI modes",
         design="DESIGN.md section 2 C17",
     ),
+    "C11": dict(
+        text="Exhaustive table check of tealer's (pop, push) per opcode x immediate shape against the reference stack effects, plus generated-input search over straight-line blocks of the whole opcode set: the producer tealer reconstructs for every operand must be the value the AVM passes there; compute_equations must return exactly the leaves of the maximal &&/|| tree. Exploration + exhaustive finite table.",
+        note="Trusted: vf/rops.py stack effects (written from the AVM specification, windows of shuffling opcodes validated against their data-movement semantics in the setup self-test). One known finding (frame_bury push size, pinned by the repository's own fixture) is excluded by construction.",
+        technique="property-based testing: differential against a reference stack-effect model; exhaustive opcode table",
+        design="DESIGN.md section 2 C11",
+    ),
+    "C19": dict(
+        text="Exhaustive grid opcode x field x declared version for the 'not supported' diagnostics, generated mixtures of mode-specific opcodes for mode / mixture / contract type / application-vs-logic-sig analysis, generated straight-line blocks for per-block cost against the reference cost table. Exhaustive finite grid + exploration.",
+        note="Trusted: vf/rops.py (introduction versions, modes, costs; versions and modes cross-checked against PyTeal's independent tables at setup). Entries marked uncertain (method pseudo-op, input-dependent costs of base64_decode/json_ref) are generated but not asserted.",
+        technique="property-based testing: differential against reference tables; exhaustive grid",
+        design="DESIGN.md section 2 C19",
+    ),
 }
 
 NOT_BUILT = "check not built yet in this session (work in progress; see DESIGN.md section 2 for the planned oracle)"
